@@ -218,9 +218,27 @@ def one_builder(ctx):
                   f'builder does not return UTF-8 encoded JSON of an object with keys {sorted(need)} (found {sorted(keys)})', fi)
 
 
-def _discover_tests(cfg):
+def _discover_tests(cfg, m=None, run=None):
     res = []
     for n in cfg.nodes:
+        if n.kind == 'test' and m is not None and run is not None and run.cls is not None:
+            # a predicate helper of the responder: true only for a discover request (every return is False or an and-expression with
+            # the comparison `... == 'discover'` in it)
+            t = n.ast
+            while isinstance(t, ast.UnaryOp) and isinstance(t.op, ast.Not):
+                t = t.operand
+            if isinstance(t, ast.Call) and isinstance(t.func, ast.Attribute) and dotted(t.func.value) == 'self' and t.func.attr in run.cls.methods:
+                h = run.cls.methods[t.func.attr]
+                rets = [r.value for r in body_walk(h.node) if isinstance(r, ast.Return)]
+
+                def only_discover(v):
+                    if v is None or (isinstance(v, ast.Constant) and not v.value):
+                        return True
+                    conj = v.values if isinstance(v, ast.BoolOp) and isinstance(v.op, ast.And) else [v]
+                    return any(isinstance(x, ast.Compare) and len(x.ops) == 1 and isinstance(x.ops[0], ast.Eq) and
+                               "'discover'" in (src(x.left), src(x.comparators[0])) for x in conj)
+                if rets and all(only_discover(v) for v in rets) and any(v is not None and not isinstance(v, ast.Constant) for v in rets):
+                    res.append((n.id, '=='))
         if n.kind == 'test':
             for l, op, r in [x for sub in ast.walk(n.ast) if isinstance(sub, (ast.Compare, ast.UnaryOp)) for x in compare_ops(sub)]:
                 if "'discover'" in (l, r) and op in ('==', '!='):
@@ -236,7 +254,7 @@ def answer_iff_request(ctx):
     loop = _loop(run)
     ctx.analysed(run)
     cfg = CFG(run.node, m, run.module)
-    tests = _discover_tests(cfg)
+    tests = _discover_tests(cfg, m, run)
     from sa.lib import deep_calls
     sends = [site for c, o, site in deep_calls(m, run, lambda c: call_attr(c) == 'sendto') if any(a is loop for a in ancestors(site))]
     recv = [i for c in calls_in(loop) if call_attr(c) in RECV for i in cfg.node_of(c)]
